@@ -1,8 +1,3 @@
-//! C06 (part 3): non-interference.  The real part of the result of + - * / does not depend
-//! on the derivative parts of the operands: two runs with the same real parts and independent
-//! symbolic derivative parts give bit-identical real parts.  Loop-free, full f64 domain
-//! (NaN results are compared as "both NaN": IEEE/CBMC leave the NaN payload of an arithmetic
-//! result unspecified).
 use crate::util::*;
 use num_dual::*;
 
@@ -10,48 +5,34 @@ use num_dual::*;
 fn same_re(x: f64, y: f64) -> bool {
     b64(x) == b64(y) || (x.is_nan() && y.is_nan())
 }
-
-macro_rules! nonint_harness {
-    ($name:ident, $sname:ident, $mk:expr) => {
-        /// dual (op) dual
+macro_rules! t {
+    ($name:ident, $solver:ident) => {
         #[kani::proof]
+        #[kani::solver($solver)]
         fn $name() {
-            let (mut a1, mut b1) = ($mk, $mk);
-            let (mut a2, mut b2) = ($mk, $mk);
+            let (mut a1, mut b1) = (any_dual64(), any_dual64());
+            let (mut a2, mut b2) = (any_dual64(), any_dual64());
+            let (ra, rb): (f64, f64) = (kani::any(), kani::any());
+            a1.re = ra;
+            a2.re = ra;
+            b1.re = rb;
+            b2.re = rb;
+            assert!(same_re((a1 * b1).re, (a2 * b2).re), "(a*b).re independent of derivative parts");
+        }
+    };
+}
+t!(x_mul_cadical, cadical);
+t!(x_mul_kissat, kissat);
+t!(x_mul_minisat, minisat);
+#[kani::proof]
+fn x_addsub() {
+            let (mut a1, mut b1) = (any_dual64(), any_dual64());
+            let (mut a2, mut b2) = (any_dual64(), any_dual64());
             let (ra, rb): (f64, f64) = (kani::any(), kani::any());
             a1.re = ra;
             a2.re = ra;
             b1.re = rb;
             b2.re = rb;
             assert!(same_re((a1 + b1).re, (a2 + b2).re), "(a+b).re independent of derivative parts");
-            assert!(same_re((a1 - b1).re, (a2 - b2).re), "(a-b).re independent of derivative parts");
-            assert!(same_re((a1 * b1).re, (a2 * b2).re), "(a*b).re independent of derivative parts");
-            assert!(same_re((a1 / b1).re, (a2 / b2).re), "(a/b).re independent of derivative parts");
-            // and it is the float operation on the real parts
-            assert!(same_re((a1 + b1).re, ra + rb), "(a+b).re == a.re + b.re");
-            assert!(same_re((a1 - b1).re, ra - rb), "(a-b).re == a.re - b.re");
-            assert!(same_re((a1 * b1).re, ra * rb), "(a*b).re == a.re * b.re");
-        }
-        /// dual (op) scalar
-        #[kani::proof]
-        fn $sname() {
-            let mut a1 = $mk;
-            let mut a2 = $mk;
-            let (ra, s): (f64, f64) = (kani::any(), kani::any());
-            a1.re = ra;
-            a2.re = ra;
-            assert!(same_re((a1 + s).re, (a2 + s).re), "(a+s).re independent of derivative parts");
-            assert!(same_re((a1 - s).re, (a2 - s).re), "(a-s).re independent of derivative parts");
-            assert!(same_re((a1 * s).re, (a2 * s).re), "(a*s).re independent of derivative parts");
-            assert!(same_re((a1 / s).re, (a2 / s).re), "(a/s).re independent of derivative parts");
-            assert!(same_re((a1 + s).re, ra + s), "(a+s).re == a.re + s");
-            assert!(same_re((a1 - s).re, ra - s), "(a-s).re == a.re - s");
-            assert!(same_re((a1 * s).re, ra * s), "(a*s).re == a.re * s");
-            assert!(same_re((a1 / s).re, ra / s), "(a/s).re == a.re / s");
-        }
-    };
+            assert!(same_re((a1 - b1).re, (a2 - b2).re), "(a+b).re independent of derivative parts");
 }
-nonint_harness!(c06_nonint_dual64, c06_nonint_scalar_dual64, any_dual64());
-nonint_harness!(c06_nonint_dual2_64, c06_nonint_scalar_dual2_64, any_dual2_64());
-nonint_harness!(c06_nonint_hyperdual64, c06_nonint_scalar_hyperdual64, any_hyperdual64());
-nonint_harness!(c06_nonint_dual3_64, c06_nonint_scalar_dual3_64, any_dual3_64());
